@@ -293,3 +293,142 @@ func c13TemplateFile(r *rand.Rand, idx int) Case {
 		Coq:  "CTemplateFile " + coqT + " " + gStr(coqFile) + " " + gStr(coqOut) + " " + coqPath + " " + gNode(data) + " " + obs + " " + gNode(after),
 		Fail: fail, Nontrivial: err == nil && len(parts) >= 2}
 }
+
+// ---- dom.YamlNodeDecoder (behind template(parseAs yaml) and AnyVal): a parsed yaml.Node tree — with anchors, aliases,
+// aliases into their own anchor, empty documents — converted to a DOM node, against Model/YamlNode.v
+func genYamlFlow(r *rand.Rand, depth int, anchors *[]string, open []string) string {
+	pre := ""
+	var mine string
+	if r.Intn(4) == 0 {
+		mine = fmt.Sprintf("a%d", len(*anchors))
+		pre = "&" + mine + " "
+	}
+	// an alias to an anchor defined earlier in the text — or, rarely, to one that is still open (the parser allows it)
+	if len(*anchors) > 0 && r.Intn(4) == 0 {
+		return "*" + (*anchors)[r.Intn(len(*anchors))]
+	}
+	if len(open) > 0 && r.Intn(10) == 0 {
+		return "*" + open[r.Intn(len(open))]
+	}
+	open2 := open
+	if mine != "" {
+		open2 = append(append([]string{}, open...), mine)
+	}
+	var out string
+	switch k := r.Intn(5); {
+	case depth >= 3 || k <= 1:
+		out = []string{"x", "1", "true", "''", "\"two words\"", "~", "null", "0x1F", "é"}[r.Intn(9)]
+	case k == 2:
+		n := r.Intn(4)
+		parts := make([]string, n)
+		for i := range parts {
+			parts[i] = genYamlFlow(r, depth+1, anchors, open2)
+		}
+		out = "[" + strings.Join(parts, ", ") + "]"
+	default:
+		n := r.Intn(4)
+		parts := make([]string, n)
+		for i := range parts {
+			parts[i] = []string{"a", "b", "c", "a"}[r.Intn(4)] + ": " + genYamlFlow(r, depth+1, anchors, open2)
+		}
+		out = "{" + strings.Join(parts, ", ") + "}"
+	}
+	if mine != "" {
+		*anchors = append(*anchors, mine)
+	}
+	return pre + out
+}
+
+func gYnode(n *yaml.Node, ids map[*yaml.Node]int) (string, bool) {
+	wrap := func(s string) string {
+		if id, ok := ids[n]; ok {
+			return "(YAnch " + fmt.Sprint(id) + " " + s + ")"
+		}
+		return s
+	}
+	switch n.Kind {
+	case 0:
+		return "YZero", true
+	case yaml.ScalarNode:
+		return wrap("(YScalar " + gStr(n.Value) + ")"), true
+	case yaml.AliasNode:
+		id, ok := ids[n.Alias]
+		return "(YAlias " + fmt.Sprint(id) + ")", ok
+	case yaml.SequenceNode, yaml.DocumentNode:
+		parts := make([]string, 0, len(n.Content))
+		for _, c := range n.Content {
+			s, ok := gYnode(c, ids)
+			if !ok {
+				return "", false
+			}
+			parts = append(parts, s)
+		}
+		if n.Kind == yaml.DocumentNode {
+			return "(YDoc [" + strings.Join(parts, "; ") + "])", true
+		}
+		return wrap("(YSeq [" + strings.Join(parts, "; ") + "])"), true
+	case yaml.MappingNode:
+		var parts []string
+		for i := 0; i+1 < len(n.Content); i += 2 {
+			if n.Content[i].Kind != yaml.ScalarNode {
+				return "", false
+			}
+			s, ok := gYnode(n.Content[i+1], ids)
+			if !ok {
+				return "", false
+			}
+			parts = append(parts, "("+gStr(n.Content[i].Value)+", "+s+")")
+		}
+		return wrap("(YMap [" + strings.Join(parts, "; ") + "])"), true
+	}
+	return "", false
+}
+
+func c13YamlNode(r *rand.Rand, idx int) Case {
+	var anchors []string
+	text := genYamlFlow(r, 0, &anchors, nil) + "\n"
+	switch r.Intn(12) {
+	case 0:
+		text = ""
+	case 1:
+		text = "# nothing but a comment\n"
+	case 2:
+		text = "---\n"
+	case 3:
+		text = "&a [*a, {k: *a}]\n"
+	}
+	var yn yaml.Node
+	if err := yaml.Unmarshal([]byte(text), &yn); err != nil {
+		return Case{Kind: "yaml-node", Desc: map[string]any{"text": text, "parse_error": err.Error()}, Key: "yn" + text}
+	}
+	ids := map[*yaml.Node]int{}
+	var walk func(n *yaml.Node)
+	walk = func(n *yaml.Node) {
+		if n.Kind == yaml.AliasNode && n.Alias != nil {
+			if _, ok := ids[n.Alias]; !ok {
+				ids[n.Alias] = len(ids)
+			}
+		}
+		for _, c := range n.Content {
+			walk(c)
+		}
+	}
+	walk(&yn)
+	term, ok := gYnode(&yn, ids)
+	if !ok {
+		return Case{Kind: "yaml-node", Desc: map[string]any{"text": text, "skipped": "shape outside the model"}, Key: "yn" + text}
+	}
+	var got dom.Node
+	var fail []string
+	if pn := guard(func() { got = dom.YamlNodeDecoder()(&yn) }); pn != "" {
+		fail = append(fail, "panic in YamlNodeDecoder: "+pn)
+	}
+	if got == nil {
+		fail = append(fail, "YamlNodeDecoder returned no node for a parsed document")
+		return Case{Kind: "yaml-node", Desc: map[string]any{"text": text}, Fail: fail, Nontrivial: true, Key: "yn" + text}
+	}
+	// a converted tree is a tree: edits of one expansion of an alias do not show in another (no shared nodes)
+	plain := nodeToAny(got)
+	return Case{Kind: "yaml-node", Desc: map[string]any{"text": text, "decoded": plain},
+		Coq: "CYamlNode " + term + " " + gNode(plain), Fail: fail, Nontrivial: len(ids) > 0, Key: "yn" + text}
+}
